@@ -617,34 +617,35 @@ pub fn check_number_bounds(num: &NumberSchema) -> Result<(), String> {
         // If interval is not unbounded in at least one direction, check if the range contains a multiple of multipleOf
         if let (Some(min), Some(max)) = (minimum, maximum) {
             let step = d.to_f64();
-            // Adjust the range depending on whether it's exclusive or not
-            let min = {
-                let first_num_ge_min = (min / step).ceil() * step;
-                let adjusted_min = if exclusive_minimum && first_num_ge_min == min {
-                    first_num_ge_min + step
-                } else {
-                    first_num_ge_min
+            // Work in units of 10^-exp, where the step is the integer `coef`: dividing the bounds
+            // by a step such as 0.1 in binary floating point is off by one ulp (0.3 / 0.1 < 3).
+            // For integer schemas the admissible values are the multiples of lcm(step, 1).
+            let scale = 10f64.powi(d.exp as i32);
+            let unit = if num.integer {
+                let (a, b) = (d.coef as u64, 10u64.pow(d.exp));
+                let gcd = {
+                    let (mut x, mut y) = (a, b);
+                    while y != 0 {
+                        (x, y) = (y, x % y);
+                    }
+                    x
                 };
-                if num.integer {
-                    adjusted_min.ceil()
-                } else {
-                    adjusted_min
-                }
+                (a / gcd) as f64 * b as f64
+            } else {
+                d.coef as f64
             };
-            let max = {
-                let first_num_le_max = (max / step).floor() * step;
-                let adjusted_max = if exclusive_maximum && first_num_le_max == max {
-                    first_num_le_max - step
-                } else {
-                    first_num_le_max
-                };
-                if num.integer {
-                    adjusted_max.floor()
-                } else {
-                    adjusted_max
-                }
-            };
-            if min > max {
+            let eps = 1e-9;
+            let (lo, hi) = (min * scale / unit, max * scale / unit);
+            // first multiple >= min (> min when exclusive), last multiple <= max (< max when exclusive)
+            let mut k_lo = (lo - eps * lo.abs().max(1.0)).ceil();
+            if exclusive_minimum && (k_lo - lo).abs() <= eps * lo.abs().max(1.0) {
+                k_lo += 1.0;
+            }
+            let mut k_hi = (hi + eps * hi.abs().max(1.0)).floor();
+            if exclusive_maximum && (k_hi - hi).abs() <= eps * hi.abs().max(1.0) {
+                k_hi -= 1.0;
+            }
+            if k_lo > k_hi {
                 return Err(format!(
                     "range {}{}, {}{} does not contain a multiple of {}",
                     if exclusive_minimum { "(" } else { "[" },
